@@ -217,6 +217,8 @@ def _augment_tables(P):
                 if isinstance(b, (ast.List, ast.Tuple, ast.Set)):
                     return a in [value(x, env) for x in b.elts]
             # truthiness of a label component (reported separately by GEN-TRUTH): ε is '' hence falsy
+            if isinstance(test, (ast.Compare, ast.BoolOp)):
+                raise AnalysisError(f"{f.qual}: test `{norm(test)}` not understood")
             v = value(test, env)
             if isinstance(v, bool):
                 return v
